@@ -36,6 +36,20 @@ func main() {
 			}
 			fn.WriteTo(os.Stdout)
 		}
+	case "keys":
+		P, err := LoadProgram()
+		if err != nil {
+			fmt.Fprintln(os.Stderr, err)
+			os.Exit(2)
+		}
+		var keys []string
+		for k := range P.funcs {
+			if len(os.Args) < 3 || strings.Contains(k, os.Args[2]) {
+				keys = append(keys, k)
+			}
+		}
+		sort.Strings(keys)
+		fmt.Println(strings.Join(keys, "\n"))
 	case "check":
 		os.Exit(cmdCheck(os.Args[2:]))
 	case "vc":
